@@ -467,6 +467,23 @@ def alias_probe(rng, uid, stream):
     pa, pb = rng.choice([('-1', '-2'), ('-2', '-1'), ('0', '2**61-1'), ('1', '2**61'), ('2**61', '1'), ('1', 'True'), ('1.0', '1'), ('True', '1.0')])
     decls = _inner(f'Inner_{u}', 's.in_ + k', ', p', '    k = ( len( str( p ) ) * 7 + int( p ) % 5 ) % 100\n')
     src, expect = _two(u, decls, f'Inner_{u}( {pa} )', f'Inner_{u}( {pb} )'), 'clean'
+  elif stream == 'sibling-internal-structs':
+    # sibling sub-components that each use a bitstruct type of their own on an INTERNAL wire only: the order of the
+    # typedefs at the head of the file is the order in which the translator reaches the siblings
+    n = rng.choice([3, 4, 5])
+    names = rng.sample(['AddrPkt', 'CrdPkt', 'CtlPkt', 'HdrPkt', 'DatPkt', 'OpqPkt'], n)
+    inst = rng.sample(WORDS, n)
+    lines = ['from pymtl3 import *']
+    for i, nm in enumerate(names):
+      w = rng.choice([2, 3, 5, 6])
+      lines += [f'@bitstruct\nclass {nm}_{u}:\n  f{i}: Bits{w}\n  g: Bits{8 - w}\n',
+                f'class Unit{i}_{u}( Component ):\n  def construct( s ):\n    s.in_ = InPort( Bits8 ); s.out = OutPort( Bits8 ); s.w = Wire( {nm}_{u} )\n'
+                f'    @update\n    def up():\n      s.w.f{i} @= s.in_[0:{w}]\n      s.w.g @= s.in_[{w}:8]\n      s.out @= concat( s.w.g, s.w.f{i} )\n']
+    body = [f'class Top_{u}( Component ):', '  def construct( s ):', '    s.in_ = InPort( Bits8 )']
+    for i, nm in enumerate(inst):
+      body += [f'    s.o_{nm} = OutPort( Bits8 ); s.{nm} = Unit{i}_{u}(); s.{nm}.in_ //= s.in_; s.o_{nm} //= s.{nm}.out']
+    src = '\n'.join(lines + body) + f'\ndef make_top():\n  return Top_{u}()\n'
+    expect = 'clean'
   elif stream == 'placeholder-child-explicit-name':
     # a Verilog placeholder as a sub-component that also carries explicit_module_name (SystemVerilog backend only)
     vname = f'VPassThru_{u}'
@@ -503,7 +520,7 @@ ALIAS_STREAMS = [
   'type-vs-struct-named-like-it', 'long-params', 'special-char-params', 'non-identifier-params',
   'struct-same-name-different-fields', 'object-repr-param',
   'set-param-different-values', 'bitstruct-subclass', 'nested-collision-under-same-named-parents', 'newline-param',
-  'hash-equal-params', 'placeholder-child-explicit-name',
+  'hash-equal-params', 'placeholder-child-explicit-name', 'sibling-internal-structs',
 ]
 
 def write_design(workdir, d):
